@@ -1,14 +1,18 @@
 #!/bin/bash
 # Cross matrix: every seeded change x every quick check, on scratch copies (never /repo, never /verif).
-# usage: tools/matrix.sh [seeded ids...]   (default: all)
+# usage: [MX=/tmp/mx] [IDS="C01 C02 ..."] tools/matrix.sh [seeded ids...]   (default: all changes, all checks)
+# The scratch repo is a git worktree of /repo at $MX/repo (created if missing); remove it afterwards with
+#   git -C /repo worktree remove --force $MX/repo
 set -u
-MX=/tmp/mx
+MX=${MX:-/tmp/mx}
+mkdir -p $MX
+[ -d $MX/repo ] || git -C /repo worktree add --detach $MX/repo HEAD >/dev/null 2>&1
 rm -rf $MX/verif; mkdir -p $MX/verif
 rsync -a --exclude target --exclude replays --exclude evidence --exclude .git /verif/ $MX/verif/
 sed -i "s#path = \"/repo\"#path = \"$MX/repo\"#" $MX/verif/harness/Cargo.toml
 sed -i "s#/repo/src/curve/zorro#$MX/repo/src/curve/zorro#" $MX/verif/harness/src/props/c14.rs
-IDS="C01 C02 C03 C04 C05 C06 C07 C08 C09 C10 C11 C12 C13 C14 C15 C16 C17 C18"
-SEEDS="${@:-$(ls /verif/seeded | grep -v json)}"
+IDS=${IDS:-"C01 C02 C03 C04 C05 C06 C07 C08 C09 C10 C11 C12 C13 C14 C15 C16 C17 C18"}
+SEEDS="${@:-$(ls /verif/seeded | grep -v -e json -e tsv)}"
 OUT=$MX/matrix.tsv; : > $OUT
 for s in $SEEDS; do
   git -C $MX/repo checkout -q -- . ; git -C $MX/repo apply /verif/seeded/$s/patch.diff || { echo "$s PATCH-FAIL" >> $OUT; continue; }
